@@ -64,3 +64,24 @@ package entropy
 //@   loop 6 assume nfBound(freqs) && delta <= 1152921504606846976
 //@   loop 6 modifies freqs[*]
 //@   loop 6 decreases 256 - idx
+
+//@ -- ------------------------------------------------------------------ codec names (C15)
+//@ -- the pinned name table of the entropy codecs
+//@ spec ename(t uint32) = t == 0 ? "NONE" : (t == 1 ? "HUFFMAN" : (t == 2 ? "FPAQ" : (t == 4 ? "RANGE" : (t == 5 ? "ANS0" : (t == 6 ? "CM" : (t == 7 ? "TPAQ" : (t == 8 ? "ANS1" : (t == 9 ? "TPAQX" : ""))))))))
+//@ spec evalid(t uint32) = t == 0 || t == 1 || t == 2 || t == 4 || t == 5 || t == 6 || t == 7 || t == 8 || t == 9
+
+//@ func GetName
+//@   mode int
+//@   opt strings smt
+//@   props C15 C10
+//@   ensures result1 == nil <==> evalid(entropyType)                            #accepts-exactly-the-table
+//@   ensures result1 == nil ==> result0 == ename(entropyType)                   #name-of-type
+//@   modifies nothing
+
+//@ func GetType
+//@   mode int
+//@   opt strings smt
+//@   props C15 C10
+//@   ensures result1 == nil ==> evalid(result0) && ename(result0) == upper(entropyName)       #type-of-name-any-case
+//@   ensures result1 != nil ==> (forall t uint64 :: evalid(t) ==> ename(t) != upper(entropyName))       #rejects-only-unknown
+//@   modifies nothing
